@@ -33,10 +33,10 @@ class World:
     """A real store in a scratch directory + the model + the data files the calls use."""
 
     def __init__(self, scratch, contents, docs=None, depth=3, width=2, algo="SHA-256",
-                 ns=DEFAULT_NS, pids=(), fmts=(None,), store_dir="store"):
+                 ns=DEFAULT_NS, pids=(), fmts=(None,), store_dir="store", store=None, datadir=None):
         self.scratch = scratch
         self.root = os.path.join(scratch, store_dir)
-        self.datadir = os.path.join(scratch, "data")
+        self.datadir = datadir or os.path.join(scratch, "data")
         os.makedirs(self.datadir, exist_ok=True)
         self.cfg = dict(depth=depth, width=width, algo=algo, ns=ns)
         self.layout = absstate.Layout(depth, width, algo, ns)
@@ -45,7 +45,7 @@ class World:
         self.pids = set(pids)
         self.fmts = set(fmts)
         self.model = Model(self.layout, self.contents, self.docs)
-        self.store = open_store(self.root, depth, width, algo, ns)
+        self.store = store if store is not None else open_store(self.root, depth, width, algo, ns)
         self._paths = {}
         self.ObjectMetadata = load_repo()["ObjectMetadata"]
 
@@ -53,9 +53,9 @@ class World:
         self.store = open_store(self.root, **self.cfg)
 
     def data_path(self, name, table=None):
-        key = (name, id(table) if table is not None else 0)
+        key = (name, "d" if (table is not None and table is self.docs) else "c")
         if key not in self._paths:
-            data = (table or self.contents)[name]
+            data = (table if table is not None else self.contents)[name]
             p = os.path.join(self.datadir, hashlib.sha256(repr(key).encode()).hexdigest()[:16])
             with open(p, "wb") as f:
                 f.write(data)
